@@ -185,6 +185,18 @@ func corrupt(r *rng.R, set map[string]*val.V) (map[string]*val.V, string) {
 	if kind >= 6 {
 		kind = 2 // the off-by-one extent is the kind that fails deepest inside a Run: draw it more often
 	}
+	if r.Chance(1, 6) {
+		// the same decimal digits, grouped differently: (1,12) -> (11,2), (11,3) -> (1,13), (2,130) -> (21,30).
+		// Whatever summarises a shape as text without separators (a cache key, a log line parsed back) cannot tell them apart.
+		if ns := regroupDigits(r, v.Shape); ns != nil && val.NElems(ns) <= 1<<16 {
+			v.Shape = ns
+			v.Bits = make([]uint64, val.NElems(ns))
+			for i := range v.Bits {
+				v.Bits[i] = set[name].Bits[i%len(set[name].Bits)]
+			}
+			return o, fmt.Sprintf("digits of the shape of %s regrouped to %v", name, ns)
+		}
+	}
 	switch kind {
 	case 0:
 		delete(o, name)
@@ -469,6 +481,53 @@ func refillOf(r *rng.R, calls []Call, ref int, fresh func() map[string]*val.V) m
 		}
 	}
 	return o
+}
+
+// regroupDigits splits the concatenated decimal digits of shape into len(shape) positive numbers without leading
+// zeros in another way (nil if there is none).
+func regroupDigits(r *rng.R, shape []int) []int {
+	if len(shape) < 2 {
+		return nil
+	}
+	digits := ""
+	for _, e := range shape {
+		if e <= 0 {
+			return nil
+		}
+		digits += fmt.Sprint(e)
+	}
+	if len(digits) <= len(shape) || len(digits) > 12 {
+		return nil
+	}
+	var all [][]int
+	var rec func(pos int, cur []int)
+	rec = func(pos int, cur []int) {
+		if len(cur) == len(shape) {
+			if pos == len(digits) {
+				all = append(all, append([]int{}, cur...))
+			}
+			return
+		}
+		for end := pos + 1; end <= len(digits); end++ {
+			if digits[pos] == '0' {
+				return
+			}
+			n := 0
+			fmt.Sscan(digits[pos:end], &n)
+			rec(end, append(cur, n))
+		}
+	}
+	rec(0, nil)
+	var cand [][]int
+	for _, s := range all {
+		if fmt.Sprint(s) != fmt.Sprint(shape) {
+			cand = append(cand, s)
+		}
+	}
+	if len(cand) == 0 {
+		return nil
+	}
+	return cand[r.Intn(len(cand))]
 }
 
 func hasBadShape(set map[string]*val.V) bool {
